@@ -120,8 +120,13 @@ def run_property(prop, tier, jobs):
                 continue
             solver_time += ob['time']
             if ob['expect'] == 'not-unsat':
+                # cover obligation: refuted = the contract's assumptions contradict this path of the code
                 if ob['result'] == 'unsat':
                     vacuous.append((r['fn'], ob['name']))
+                    n += 1
+                    ob = dict(ob)
+                    ob['full'] = '%s :: cover.%s (hypotheses contradictory on this path)' % (r['fn'], ob['name'])
+                    failing.append((r, ob))
                 continue
             n += 1
             ok = ob['result'] in ('unsat', 'trivial')
@@ -185,16 +190,13 @@ def run_property(prop, tier, jobs):
     lines = []
     known = load_known()
     violations = 0
-    if errors or disagreements or total == 0:
+    if errors or disagreements or (total == 0 and not tool_limits):
         for fn, e in errors:
             print('ENGINE ERROR in %s:\n%s' % (fn, e))
         for dgr in disagreements:
             print('SOLVER DISAGREEMENT %s' % (dgr,))
-        if total == 0:
+        if total == 0 and not tool_limits:
             print('checker error: zero obligations generated for %s' % prop)
-        exit_code = 3
-    if vacuous:
-        print('checker error: vacuous hypotheses (precondition or path refutable): %s' % vacuous[:5])
         exit_code = 3
     # ---- violations: one per function (failing input from the real code where there is one)
     by_fn = {}
